@@ -19,7 +19,7 @@ META = {
         'membership test (IN list / VALUES CTE used only with IN); rows inserted by executemany. Sanitizers: sorted() '
         'without key, set(), len/sum/any/all, min/max without key, membership. R2: no function outside the connection '
         'pool / configuration mutates module-level state (read-only calls do not change later results); the '
-        'who-may-write rule over SQL is C05-R3.'),
+        'who-may-write rule over SQL is C05-R3. R4 no unintended sharing of mutable objects between results. R5 no one-shot iterator (map, filter, zip, generator) is kept in an attribute.'),
     'decides': ['no hash-seed-ordered value reaches a result, a file or a position-sensitive SQL parameter',
                 'no query path writes module-level state', 'no one-shot iterator is kept in an attribute'],
     'not_decided': ['order of rows SQLite returns for queries without ORDER BY (taken as a function of content)',
